@@ -82,8 +82,8 @@ instance (d : Decl) (sel gsel : List Nat) : Decidable (IsPerm d sel gsel) := by
 abbrev permute (d : Decl) (sel gsel : List Nat) : Decl := restrict d sel gsel
 
 /-- entity discipline of a formula expression living on entity `ent`: a sum over members
-    (`op1 1`) and the role operations (`op1 10..49`: role-filtered sum, value of the unique-role
-    member, number of role holders, any) yield a group vector from a person vector, a projection
+    (`op1 1`) and the role operations (`op1 10..79`: role-filtered sum, value of the unique-role
+    member, number of role holders, any, max, min, all) yield a group vector from a person vector, a projection
     (`op1 2`) a person vector from a group vector; every other operation stays on its entity.  (Real formulas that break
     this discipline raise a numpy shape error or broadcast.) -/
 def WT : Nat → DExpr → Bool
